@@ -69,7 +69,7 @@ def case_1d(ctx, index, rng: random.Random):
     # gapped bins + integer contents cannot hold the NaN under/overflow markers (known finding D01): use float contents there
     dtype = None
     if gapped and not float_contents:
-        if rng.random() < 0.9:
+        if rng.random() < 0.4:
             dtype = "float64"
     int_gap = gapped and not float_contents and dtype is None
     bins_arr = np.array(pairs)
